@@ -414,6 +414,8 @@ CYCLIC_TEMPLATES = [
     'for _ in x:\n    class A(B): pass\n    class B(A): pass\n    A().x\nB.y',
     'def f():\n    class A(B): pass\n    return A\nclass B(f()): pass\nB().y\nf().z',
     'if c:\n    class A(object): pass\nelse:\n    class A(dict): pass\nclass B(A): pass\nB().x',
+    'import pyexpat.errors\npyexpat\nx = pyexpat\nx.errors\npyexpat.errors.messages',
+    'import xml.parsers.expat.model, pyexpat.model\npyexpat.model\nxml.parsers\nimport os.path, math\nmath\nos',
     'import cyc_e\ncyc_e.e_other.FromF.f_attr.e_own.x\ncyc_e.cyc_f.cyc_e.e_own',
     'from cyc_f import FromF\nFromF().f_attr.cyc_f.f_own',
     'import cyc_e, cyc_f\nclass K(cyc_f.FromF):\n    def m(self):\n        self.q = cyc_e.e_other.FromF()\n        return self.q.f_attr\nK().m().cyc_f.x',
